@@ -432,10 +432,18 @@ def pp2_config(unit):
     }
 
 
+def mark_replaced(t):
+    """make the model token t the result of macro replacement: expand_macro leaves the token of the macro name in `origin`"""
+    t.fields['origin'] = Obj('Token', lazy=True, label='macro-name')
+    t.meta['replaced'] = True
+    return t
+
+
 def directive_scenario(T, d, second=None, variant=None, kind='TK_IDENT'):
     """`# d M` / next line `x y` (or `# second z`).
     variant 'word': the line is `w d M` (no `#`); 'midline': the `#` does not begin a line; 'nextline': the `#` stands alone on its
-    line (a null directive, C11 6.10.7) and `d M` is the next line"""
+    line (a null directive, C11 6.10.7) and `d M` is the next line; 'replaced': the `#` begins a line but is the result of macro
+    replacement (`HASH d M` with `#define HASH #`; C11 6.10.3.4p3: never a directive)"""
     def mk(ctx):
         specs = T.line('a', [('#', 'TK_PUNCT'), (d, kind), ('M', 'TK_IDENT')])
         if variant == 'word':
@@ -450,6 +458,8 @@ def directive_scenario(T, d, second=None, variant=None, kind='TK_IDENT'):
         else:
             specs += T.line('b', [('x', 'TK_IDENT'), ('y', 'TK_IDENT')])
         ts = T.chain(specs)
+        if variant == 'replaced':
+            mark_replaced(ts[0])
         ctx.toks = ts
         ctx.tokidx = {id(t): i for i, t in enumerate(ts)}
         return [ts[0]]
